@@ -26,7 +26,7 @@ meta = {"property": prop, "name": name, "change": change, "needs_to_manifest": n
                       "demo_without_change": "exit " + g(r"demo without change: exit (\d+)"),
                       "how": "tools/dev/confirm_seed3.sh in the scratch worktree (git apply patch.diff; cargo test --offline --lib; cargo run --offline%s of demo/ with the change and after `git checkout -- .`)" % (" --release" if rel else "")}}
 json.dump(meta, open(dst + "/meta.json", "w"), indent=1)
-r2 = subprocess.run([V + "/tools/dev/run_seed.sh", name, prop], capture_output=True, text=True)
+r2 = subprocess.run([V + ("/tools/dev/run_seed_wt.sh" if "--wt" in sys.argv else "/tools/dev/run_seed.sh"), name, prop], capture_output=True, text=True)
 print(r2.stdout[-1500:], r2.stderr[-300:])
 m = re.search(r"exit=(\d+)", r2.stdout)
 rc = int(m.group(1)) if m else -1
